@@ -3,3 +3,5 @@
 // `core::*` can name them.
 pub(crate) use super::mutable::verif_kani as mutable;
 pub(crate) use super::signed_announce::verif_kani as signed_announce;
+pub(crate) use super::node::verif_kani as node;
+pub(crate) use super::routing_table::verif_kani as routing_table;
